@@ -122,3 +122,71 @@ def nontrivial_default(case_line):
         if tok[:2] == "i:" and "," in tok:
             return True
     return False
+
+# ---------------------------------------------------------------- Coq term rendering (in-Coq cross-check)
+PANIC_COQ = {"divzero": "DivZero", "subunderflow": "SubUnderflow", "negshift": "NegShift",
+             "badradix": "BadRadix", "zeromodulus": "ZeroModulus", "negexponent": "NegExponent",
+             "imagroot": "ImagRoot", "zeroroot": "ZeroRoot", "emptyrange": "EmptyRange",
+             "memoverflow": "MemOverflow"}
+
+def coq_z(v):
+    return "(%d)" % v
+
+def parse_digits(tok):
+    """'u:1,ff' / 'd:...' -> list of ints"""
+    s = tok.split(":", 1)[1]
+    return [int(h, 16) for h in s.split(",")] if s else []
+
+def coq_list(tok_or_list):
+    l = parse_digits(tok_or_list) if isinstance(tok_or_list, str) else tok_or_list
+    return "[" + "; ".join("%d" % d for d in l) + "]"
+
+def coq_bigint(tok):
+    _, s, digs = tok.split(":", 2)
+    sg = {"-": "Minus", "0": "NoSign", "+": "Plus"}[s]
+    l = [int(h, 16) for h in digs.split(",")] if digs else []
+    return "(mkint %s %s)" % (sg, coq_list(l))
+
+def coq_scalar(tok):
+    _, ty, v = tok.split(":")
+    return ty, int(v)
+
+def coq_cmp(tok):
+    return {"o:lt": "Lt", "o:eq": "Eq", "o:gt": "Gt"}[tok]
+
+def coq_payload(tok):
+    """Render one payload token generically."""
+    if tok[:2] in ("u:", "d:"):
+        return coq_list(tok)
+    if tok[:2] == "i:":
+        return coq_bigint(tok)
+    if tok[:2] == "n:":
+        return "(%s)" % tok[2:]
+    if tok[:2] == "o:":
+        return coq_cmp(tok)
+    if tok[:2] == "z:":
+        return {"z:-1": "Minus", "z:0": "NoSign", "z:1": "Plus"}[tok]
+    raise ValueError(tok)
+
+def coq_result(line, some=False, render=None):
+    """Coq term of type `outcome T` for a model result line.
+    some=True wraps an `ok` payload in `Some` (and `none` becomes `Ret None`)."""
+    if line.startswith("panic:"):
+        k = line[6:]
+        if k == "outoffuel":
+            return "OutOfFuel"
+        if k.startswith("internal"):
+            return "Panic (Internal %s)" % k[8:]
+        return "Panic %s" % PANIC_COQ[k]
+    if line == "none":
+        return "Ret None"
+    if line.startswith("ok"):
+        toks = line.split(" ")[1:]
+        if render:
+            body = render(toks)
+        elif len(toks) == 1:
+            body = coq_payload(toks[0])
+        else:
+            body = "(" + ", ".join(coq_payload(t) for t in toks) + ")"
+        return "Ret (Some %s)" % body if some else "Ret %s" % body
+    return None
